@@ -12,9 +12,16 @@ length), by abstract interpretation with a write log on the destination buffer (
    MessageBuilder::write_into: every write is dominated by the false arm of `byte_len() > dest.len()`, whose true arm
    returns TooSmall{byte_len(), dest.len()}; its header writes cover exactly [0, 20); attributes go through the
    guarded per-attribute writer at the accumulated offset;
- * build() allocates byte_len() zero bytes and calls write_into on them; into_owned()/clone() are element-wise.
-NOT decided: byte equality of write_into_unchecked with to_raw() + to_bytes() (two code paths, run-time values) -
-the core of the property."""
+ * build() allocates byte_len() zero bytes and calls write_into on them; into_owned()/clone() are element-wise;
+ * THE TWO WRITERS AGREE (content tracking): for each attribute type, `write_into_unchecked(dest)` and `to_raw()` are analysed on
+   the same symbolic value; the bytes the in-place writer leaves in [0, 4 + length()) are compared piece by piece (a field's
+   bytes, the big-endian bytes of a number, constants, zeros - described by where they come from, not by statement shape) with
+   type ++ declared length ++ value of the raw form, whose declared length must be the length of its value;
+   RawAttribute::to_bytes() is type ++ declared length ++ whole value ++ zero padding to the next multiple of four, and every
+   site constructing a RawAttribute (new, new_owned, from_bytes, into_owned, clone) declares exactly the length of the value
+   it stores and keeps type and value bytes.  Decided today for 15 of the 20 writers; the address attributes (std::net
+   getters and the xor are opaque), the two element-wise lists and the xor-ed FINGERPRINT are reported in the evidence as not
+   decided - for those, and for values beyond the in-limit assumption, byte equality of the two paths is NOT decided."""
 import re
 from absint.lin import Lin
 from absint.values import *
